@@ -1450,17 +1450,7 @@ impl<'a, T> BumpBox<'a, [T]> {
         T: Clone,
     {
         assert!(T::IS_ZST);
-        if len == 0 {
-            drop(value);
-            BumpBox::EMPTY
-        } else {
-            for _ in 1..len {
-                mem::forget(value.clone());
-            }
-
-            mem::forget(value);
-            unsafe { BumpBox::zst_slice_from_len(len) }
-        }
+        BumpBox::uninit_zst_slice(len).init_fill(value)
     }
 
     #[must_use]
